@@ -104,7 +104,7 @@ var (
 var commonLabels = []string{"fin", "entry", "putloop", "msg", "next", "retry", "error", "strend"}
 
 // sharedOperands: operand-pair texts used verbatim with several mnemonics (MOV and non-MOV).
-var sharedOperands = []string{"SI,msg", "BX,fin", "AX,entry", "SI,strend", "CX,retry", "DI,next", "AX,0", "SI,1", "BX,15", "AL,[SI]", "CX,[SI]", "[0x0ff0],BX", "DX,[0x0ff2]", "ECX,[EBX+16]", "EAX,1", "AX,BX", "ECX,EDX", "BYTE [SI],0", "WORD [0x0ff4],320", "AX,msg+2"}
+var sharedOperands = []string{"AX,ES:BX", "CX,ES:DI", "SI,msg", "BX,fin", "AX,entry", "SI,strend", "CX,retry", "DI,next", "AX,0", "SI,1", "BX,15", "AL,[SI]", "CX,[SI]", "[0x0ff0],BX", "DX,[0x0ff2]", "ECX,[EBX+16]", "EAX,1", "AX,BX", "ECX,EDX", "BYTE [SI],0", "WORD [0x0ff4],320", "AX,msg+2"}
 
 type progGen struct {
 	nonASCII bool // string literals may contain non-ASCII text (C10 pools only: C19 re-encodes files)
@@ -356,6 +356,9 @@ func (g *progGen) operand() string {
 	case 9:
 		return pick(r, []string{"BYTE", "WORD", "DWORD"}) + " " + g.mem()
 	default:
+		if g.r.Chance(1, 2) { // segment-qualified operands without brackets: seg:reg, seg:label, seg:imm
+			return pick(g.r, sregs) + ":" + pick(g.r, []string{pick(g.r, regs16), pick(g.r, regs16), g.target(), g.imm(16)})
+		}
 		return "CL"
 	}
 }
